@@ -145,7 +145,12 @@ func (f *Filters) get(c *ClientConfig) (rl *rulelist.Immutable) {
 		return nil
 	}
 
-	if item.updTime.Before(c.UpdateTime) {
+	// Only use the cached filter if it has been compiled from exactly this
+	// version of the configuration.  Do not assume that a later version has a
+	// later update time, since the update times that are loaded from the
+	// profile cache file have been taken from the wall clock of a previous
+	// process, and that clock may have been ahead of the current one.
+	if !item.updTime.Equal(c.UpdateTime) {
 		return nil
 	}
 
